@@ -424,6 +424,20 @@ func (e *Env) Run(prog Program, opt RunOpt, keepDump bool) *Result {
 		parser.CloseAndClean(err)
 	})
 	out.Wire, out.Writes, out.NWrite, out.Failed, out.Closed = conn.Wire, conn.Writes, conn.NWrite, conn.Failed, conn.Closed
+	if out.Panic == "" {
+		// Parser.Parse recovers panics and only logs them: one that is not the handler's happened
+		// in flushResponse / release
+		for _, l := range out.Logs {
+			if strings.Contains(l, "HTTP Parse failed") {
+				if i := strings.IndexByte(l, '\n'); i > 0 {
+					l = l[:i]
+				}
+				out.Panic = "after the handler returned: " + l
+				out.PanicOp = len(prog.Ops)
+				break
+			}
+		}
+	}
 	if !out.Hang {
 		out.Viol = t.Violations()
 	}
